@@ -3,21 +3,24 @@ package main
 import (
 	"fmt"
 	"go/ast"
+	"go/token"
 	"go/types"
 	"strings"
+
+	"golang.org/x/tools/go/cfg"
 )
 
 func init() {
 	register("C16", &propMeta{
 		Level: "other",
 		Explanation: "Structural clauses of source-import resolution: R16.1 inside importSrc the already-imported test dominates everything, the cycle test dominates the cycle mark, which dominates the directory read and every recursive path; the relative-import branch builds the directory from the importing file's directory; " +
-			"R16.2 in pkgDir the vendor candidate is examined before the plain candidate and the recursion walks up through previousRoot; R16.3 every file access reachable from importSrc inside package interp is an io/fs function on the interpreter's filesystem (no direct os/ioutil access). " +
+			"R16.2 in pkgDir the vendor candidate is examined before the plain candidate and the recursion walks up through previousRoot, and in previousRoot the upward search for the closest vendor directory precedes every other answer for an ordinary root; R16.3 every file access reachable from importSrc inside package interp is an io/fs function on the interpreter's filesystem (no direct os/ioutil access). " +
 			"The path arithmetic of effectivePkg/previousRoot (string values) is not decided.",
 		Assumptions: []string{"go/cfg dominance over resolved call sites", "string-valued path computations are not modelled"},
 		Run:         runC16,
 	})
 	ruleText["R16.1"] = "in importSrc: (a) the srcPkg early return dominates every file access and run; (b) the test of Interpreter.rdir[importPath] (returning an import-cycle error) dominates the store rdir[importPath] = true, which dominates fs.ReadDir and every call that can recurse (parse/gta/gtaRetry/cfg); (c) on the relative-import branch the directory derives from filepath.Dir(interp.name)"
-	ruleText["R16.2"] = "in pkgDir the fs.Stat of the candidate containing the vendor directory precedes (dominates) the fs.Stat of the plain candidate, each successful Stat returns its own candidate, and the recursive call takes the root computed by previousRoot"
+	ruleText["R16.2"] = "in pkgDir the fs.Stat of the candidate containing the vendor directory precedes (dominates) the fs.Stat of the plain candidate, each successful Stat returns its own candidate, and the recursive call takes the root computed by previousRoot; in previousRoot, under root != mainID && final != vendor, no return with a nil error is reachable from the entry without passing a block that calls fs.Stat"
 	ruleText["R16.3"] = "every file-system access in the functions reachable from importSrc within package interp is an io/fs function whose first argument is loaded from Interpreter.opt.filesystem; no os.Open/ReadFile/Stat/ReadDir or io/ioutil access"
 }
 
@@ -30,6 +33,7 @@ func runC16(c *Config, r *Report) {
 	c15R3(ic, r, "R16.1")
 	c16R1(ic, r)
 	c16R2(ic, r)
+	c16R2b(ic, r)
 	c16R3(ic, r)
 }
 
@@ -80,6 +84,50 @@ func c16R1(ic *IC, r *Report) {
 	if mark == nil {
 		r.Fail("R16.1", "importSrc/cycle-mark", ic.pos(is.Decl.Pos()), "importSrc never sets Interpreter.rdir[importPath] = true: cycles are not detected")
 		return
+	}
+	// the key tested is the key marked (and the key cleared, if the mark is ever cleared)
+	{
+		keyOf := func(e ast.Expr) string {
+			if ix, ok := unparen(e).(*ast.IndexExpr); ok {
+				return types.ExprString(ix.Index)
+			}
+			return ""
+		}
+		tk := keyOf(test.Cond)
+		mk := ""
+		for _, l := range mark.Lhs {
+			if ix, ok := unparen(l).(*ast.IndexExpr); ok && selField(ic.Info, ix.X) == rdir {
+				mk = types.ExprString(ix.Index)
+			}
+		}
+		var other []string
+		ast.Inspect(is.Decl.Body, func(n ast.Node) bool {
+			if c, ok := n.(*ast.CallExpr); ok && len(c.Args) == 2 {
+				if id, ok := c.Fun.(*ast.Ident); ok && id.Name == "delete" && selField(ic.Info, c.Args[0]) == rdir {
+					if k := types.ExprString(c.Args[1]); k != mk {
+						other = append(other, "delete uses key "+k)
+					}
+				}
+			}
+			return true
+		})
+		// the key variable is not reassigned between the test and the mark
+		reassigned := false
+		if id, ok := unparen(test.Cond).(*ast.IndexExpr).Index.(*ast.Ident); ok {
+			obj := ic.Info.ObjectOf(id)
+			ast.Inspect(is.Decl.Body, func(n ast.Node) bool {
+				if as, ok := n.(*ast.AssignStmt); ok && as.Pos() > test.Pos() && as.End() < mark.Pos() {
+					for _, l := range as.Lhs {
+						if lid, ok := l.(*ast.Ident); ok && ic.Info.ObjectOf(lid) == obj {
+							reassigned = true
+						}
+					}
+				}
+				return true
+			})
+		}
+		r.Check(tk == mk && len(other) == 0 && !reassigned, "R16.1", "importSrc/cycle-key", ic.pos(mark.Pos()), "the in-progress mark is tested, set and cleared under the same key ("+mk+")",
+			fmt.Sprintf("the in-progress table is tested with key %s and marked with key %s %v: a package being loaded is not recognised when it is reached again (for the imports whose two keys differ), so an import cycle recurses until the stack overflows", tk, mk, other))
 	}
 	d1, _ := fg.dominates(test.Cond, mark)
 	sinks := callsIn(ic.Info, is.Decl.Body, false, "io/fs.ReadDir", "interp.Interpreter.parse", "interp.Interpreter.gta", "interp.Interpreter.gtaRetry", "interp.Interpreter.cfg")
@@ -320,4 +368,100 @@ func c16R3(ic *IC, r *Report) {
 	if nAccess < 4 {
 		r.Errorf("R16.3: only %d io/fs accesses found under importSrc", nAccess)
 	}
+}
+
+// c16R2b: previousRoot. For a root that is neither the main package nor itself a vendor
+// directory, the closest vendor directory among the ancestors takes priority: the upward
+// search (fs.Stat of <ancestor>/vendor) must have been made before the function falls back to
+// cutting the root at its last "vendor" component. Decided on the flow graph pruned by the
+// assumption root != mainID && final != vendor: no successful return is reachable from the
+// entry without passing a block that calls fs.Stat.
+func c16R2b(ic *IC, r *Report) {
+	fi := ic.fn(r, "previousRoot")
+	if fi == nil {
+		return
+	}
+	info := ic.Info
+	isConstOrVar := func(e ast.Expr, names ...string) bool {
+		id, ok := unparen(e).(*ast.Ident)
+		if !ok {
+			return false
+		}
+		for _, n := range names {
+			if id.Name == n {
+				return true
+			}
+		}
+		return false
+	}
+	atom := func(e ast.Expr) int {
+		be, ok := e.(*ast.BinaryExpr)
+		if !ok || (be.Op != token.EQL && be.Op != token.NEQ) {
+			return triUnknown
+		}
+		res := triUnknown
+		// root == mainID, final == vendor: false under the assumption
+		if (isConstOrVar(be.X, "root") && isConstOrVar(be.Y, "mainID")) || (isConstOrVar(be.X, "final") && isConstOrVar(be.Y, "vendor")) {
+			res = triFalse
+		}
+		if res != triUnknown && be.Op == token.NEQ {
+			res = 1 - res
+		}
+		return res
+	}
+	g := cfg.New(fi.Decl.Body, func(c *ast.CallExpr) bool { return !noReturn(info, c) })
+	hasStat := func(b *cfg.Block) bool {
+		for _, n := range b.Nodes {
+			if len(callsIn(info, n, false, "io/fs.Stat")) > 0 {
+				return true
+			}
+		}
+		return false
+	}
+	nStat := 0
+	for _, b := range g.Blocks {
+		if hasStat(b) {
+			nStat++
+		}
+	}
+	if nStat == 0 {
+		r.Fail("R16.2", "previousRoot/closest-vendor-first", ic.pos(fi.Decl.Pos()), "previousRoot never looks for a vendor directory among the ancestors of the root (no fs.Stat): a package inside a vendored module does not see that module's own vendor directory")
+		return
+	}
+	seen := map[*cfg.Block]bool{}
+	var early []string
+	var walk func(b *cfg.Block)
+	walk = func(b *cfg.Block) {
+		if seen[b] || hasStat(b) {
+			return
+		}
+		seen[b] = true
+		for _, n := range b.Nodes {
+			if rs, ok := n.(*ast.ReturnStmt); ok && len(rs.Results) == 2 {
+				if id, ok := unparen(rs.Results[1]).(*ast.Ident); ok && id.Name == "nil" {
+					early = append(early, "return "+types.ExprString(rs.Results[0])+" at "+ic.pos(rs.Pos()))
+				}
+			}
+		}
+		if len(b.Succs) == 2 && len(b.Nodes) > 0 {
+			if cond, ok := b.Nodes[len(b.Nodes)-1].(ast.Expr); ok {
+				switch evalCond(cond, atom) {
+				case triTrue:
+					walk(b.Succs[0])
+					return
+				case triFalse:
+					walk(b.Succs[1])
+					return
+				}
+			}
+		}
+		for _, s := range b.Succs {
+			walk(s)
+		}
+	}
+	if len(g.Blocks) > 0 {
+		walk(g.Blocks[0])
+	}
+	r.Check(len(early) == 0, "R16.2", "previousRoot/closest-vendor-first", ic.pos(fi.Decl.Pos()), "for an ordinary root every result is computed after the upward search for a vendor directory",
+		"for a root that is neither main nor a vendor directory, previousRoot can answer ("+strings.Join(early, "; ")+") before it has looked for a vendor directory among the root's ancestors: the nearest enclosing vendor directory is skipped and the import resolves to an outer vendor directory or to GOPATH")
 }
